@@ -3,6 +3,8 @@ import J5V.Props.C07
 #print axioms J5V.Props.C07.C07_field_no_panic
 #print axioms J5V.Props.C07.C07_convertFile_no_panic
 #print axioms J5V.Props.C07.C07_compile_no_panic
+#print axioms J5V.Props.C07.C07_uses_imported
+#print axioms J5V.Props.C07.C07_uses_imported_pkg
 #print axioms J5V.Props.C07.emptyCtx_wf
 #print axioms J5V.Props.C07.C07_literal_exact
 #print axioms J5V.Props.C07.C07_literal_range_rejected
